@@ -221,9 +221,16 @@ def str_eq(a, b):
                 h = x[0]
                 if h.kind == "code" and lit == "0.0" and h.is00 is not None:
                     return SBool(h.is00)
+                if h.kind in ("word", "num") and isinstance(h.extra, dict):
+                    if lit == "" or lit in h.extra.get("notin", ()):
+                        return False      # requires: the field is non-empty and is none of the marker tokens
+                    if any(c.isspace() for c in lit) or (h.kind == "num" and not any(ch.isdigit() for ch in lit)):
+                        return False
                 if h.kind == "ident" and h.extra and "islit" in h.extra:
                     return h.extra["islit"](lit)
             n = sum(len(s.text) if isinstance(s, Lit) else s.minlen for s in x)
+            if lit == "" and n > 0:
+                return False
             if n > len(lit):
                 return False
             # literal prefix / suffix mismatch decides
